@@ -11,7 +11,10 @@ case = {"ops": [op, …]}            (JSON; refs are resolved at run time)
   ["I", ref|None, spec, msgid]      handle_message(initialize …, session_id=ref); spec = {"client"?:v,"version"?:v,"noparams"?:true}
   ["R", ref|None, method, msgid|None]  handle_message(method …, session_id=ref)
 ref k>=0 = the k-th id the implementation handed out in this case (a never-issued id when there
-are fewer), ref -1 = a never-issued id.
+are fewer), ref -1 = a never-issued id, a STRING ref = that literal string as session id (never
+issued: "", "%s", …).  ["X", None] calls cleanup_expired() with its default max_age (read from
+the signature).  ["C", client, version, metadata] passes the optional metadata argument.
+["R", ref, None, id] dispatches a message WITHOUT a method (a response-shaped message).
 
 The ids the implementation returns are numbered in order of first appearance; those numbers
 are what the model receives as "the id supply's choices" (a repeated id gets its old number, so
@@ -90,7 +93,31 @@ def new_handler():
     from chuk_mcp.protocol.types.info import ServerInfo
     from chuk_mcp.protocol.types.capabilities import ServerCapabilities
 
-    return ProtocolHandler(ServerInfo(name="verif", version="1"), ServerCapabilities())
+    ph = ProtocolHandler(ServerInfo(name="verif", version="1"), ServerCapabilities())
+
+    async def h_raises(message, session_id):
+        raise RuntimeError("handler failed")
+
+    async def h_raises_empty(message, session_id):
+        raise ValueError("")
+
+    async def h_nonsense(message, session_id):
+        return None
+
+    async def h_silent(message, session_id):
+        return None, None
+
+    async def h_answers(message, session_id):
+        return ph.create_response(message.id, {"ok": 0}), None
+
+    for name, fn in {"verif/raises": h_raises, "verif/raises-empty": h_raises_empty, "verif/nonsense": h_nonsense,
+                     "verif/silent": h_silent, "verif/answers": h_answers}.items():
+        ph.register_method(name, fn)
+    return ph
+
+
+# literal strings usable as (never issued) session ids: falsy, format-hostile, look-alikes
+GHOSTS = ["", "%s", "{0}", "a\nb", "sessions", "0", "None", "\u2028", "x" * 1000]
 
 
 def run_case(case):
@@ -108,8 +135,8 @@ def run_case(case):
         return len(ids) - 1, True
 
     def resolve(ref):
-        if ref is None:
-            return None
+        if ref is None or isinstance(ref, str):
+            return ref
         if 0 <= ref < len(ids):
             return ids[ref]
         return f"never-issued-{ref}"
@@ -118,6 +145,7 @@ def run_case(case):
         with patched_clock(clock):
             handler = new_handler()
             mgr = handler.session_manager
+            envelopes = {}
 
             def snapshot():
                 snap = []
@@ -134,7 +162,10 @@ def run_case(case):
                     clock.now += int(op[1])
                     st = {"now": clock.now, "out": ["tick"]}
                 elif code == "C":
-                    sid = mgr.create_session(copy.deepcopy(op[1]), op[2])
+                    if len(op) > 3:
+                        sid = mgr.create_session(copy.deepcopy(op[1]), op[2], copy.deepcopy(op[3]))
+                    else:
+                        sid = mgr.create_session(copy.deepcopy(op[1]), op[2])
                     k, fresh = number(sid)
                     st["out"] = ["sid", k]
                     st["fresh"] = fresh
@@ -146,7 +177,14 @@ def run_case(case):
                 elif code == "D":
                     st["out"] = ["flag", mgr.delete_session(resolve(op[1]))]
                 elif code == "X":
-                    st["out"] = ["count", mgr.cleanup_expired(op[1])]
+                    if op[1] is None:
+                        import inspect
+
+                        d = inspect.signature(mgr.cleanup_expired).parameters["max_age"].default
+                        st["default"] = d if isinstance(d, (int, float)) and not isinstance(d, bool) else repr(d)
+                        st["out"] = ["count", mgr.cleanup_expired()]
+                    else:
+                        st["out"] = ["count", mgr.cleanup_expired(op[1])]
                 elif code == "K":
                     st["out"] = ["count", mgr.clear_all_sessions()]
                 elif code == "N":
@@ -182,7 +220,11 @@ def run_case(case):
                         if "version" in spec:
                             params["protocolVersion"] = spec["version"]
                         msg["params"] = params
-                    m = JSONRPCMessage.model_validate(msg)
+                    ckey = json.dumps(msg, sort_keys=True)
+                    if spec.get("reuse") and ckey in envelopes:
+                        m = envelopes[ckey]  # the very same envelope object dispatched again
+                    else:
+                        m = envelopes[ckey] = JSONRPCMessage.model_validate(msg)
                     resp, new_sid = _loop().run_until_complete(handler.handle_message(m, resolve(op[1])))
                     rd = resp.model_dump(exclude_none=True) if resp is not None else None
                     st["resp_id"] = rd.get("id") if isinstance(rd, dict) else None
@@ -197,12 +239,18 @@ def run_case(case):
                         st["fresh"] = None
                     st["idtype"] = type(new_sid).__name__
                 elif code == "R":
-                    msg = {"jsonrpc": "2.0", "method": op[2]}
+                    msg = {"jsonrpc": "2.0"}
+                    if op[2] is not None:
+                        msg["method"] = op[2]
+                    else:
+                        msg["result"] = {}
                     if op[3] is not None:
                         msg["id"] = op[3]
                     m = JSONRPCMessage.model_validate(msg)
                     resp, new_sid = _loop().run_until_complete(handler.handle_message(m, resolve(op[1])))
                     st["out"] = ["unit"]
+                    rd = resp.model_dump(exclude_none=True) if resp is not None else None
+                    st["answer"] = None if rd is None else ("error" if "error" in rd else "result")
                     st["new_sid"] = new_sid if new_sid is None else "<sid>"
                 else:
                     raise ValueError(f"unknown op {op!r}")
@@ -223,6 +271,8 @@ def _ref_num(ref, issued_before):
     """number the model sees for a ref: the k-th issued id, or a negative never-issued one"""
     if ref is None:
         return None
+    if isinstance(ref, str):
+        return -(2 + GHOSTS.index(ref)) if ref in GHOSTS else -900
     if 0 <= ref < issued_before:
         return ref
     return -1000 - ref if ref >= 0 else -1
@@ -249,7 +299,10 @@ def model_line(case, obs):
         elif code in ("G", "U", "D"):
             ops.append([now, code, _ref_num(op[1], issued)])
         elif code == "X":
-            ops.append([now, "X", op[1]])
+            a = st.get("default") if op[1] is None else op[1]
+            if not isinstance(a, int) or isinstance(a, bool):
+                return None  # fractional limits are outside the integer model: reference dict only
+            ops.append([now, "X", a])
         elif code in ("L", "K", "N"):
             ops.append([now, code])
         elif code == "I":
@@ -271,8 +324,14 @@ def model_line(case, obs):
             ops.append([now, "I", o])
             issued = max(issued, st["out"][1] + 1)
         elif code == "R":
+            if op[2] is None or op[2] == "":
+                continue  # no method: the dispatcher answers "invalid request" before it looks at the session
             ops.append([now, "R", _ref_num(op[1], issued)])
     return {"m": "session", "answers": answers, "ops": ops}
+
+
+def _no_model_op(op):
+    return op[0] == "T" or (op[0] == "R" and (op[2] is None or op[2] == ""))
 
 
 def masked_ids(case, obs):
@@ -293,7 +352,7 @@ def impl_shape(case, obs):
     masked = masked_ids(case, obs)
     outs, snaps = [], []
     for op, st in zip(case["ops"], obs["steps"]):
-        if op[0] == "T":
+        if _no_model_op(op):
             continue
         o = st["out"]
         if o[0] == "listing":
@@ -310,7 +369,7 @@ def model_shape(out, case, obs):
         return out
     masked = masked_ids(case, obs)
     outs = []
-    real_ops = [op for op in case["ops"] if op[0] != "T"]
+    real_ops = [op for op in case["ops"] if not _no_model_op(op)]
     for op, o in zip(real_ops, out["outs"]):
         if o[0] == "listing":
             o = ["listing", _mask_rows(o[1], masked)]
